@@ -32,7 +32,9 @@ def stepInterp : SExp → Option SExp
         | none => .list [.atom "raises"]
       let (h, e) := runOld j
       pure (.list [.atom "ok", r, .list [.atom "old", showNats h, showNats e],
-        .list ((topHolds j).map fun b => .atom (if b then "T" else "F")), showNats j.sites])
+        .list ((topHolds j).map fun b => .atom (if b then "T" else "F")), showNats j.sites,
+        .atom (if j.siteInline then "T" else "F"), showNats j.inlineCalls.sites,
+        .atom (if j.inlineCalls.siteInline then "T" else "F")])
   | _ => none
 
 end Genjax
